@@ -206,6 +206,12 @@ fn arg_class(a: A) -> &'static str { match a { A::I(n) if n < 0 => "negative", A
 
 /// Checks one step of the implementation against the reference; returns the oracle findings.
 fn oracle_step(surface: &str, r: &mut RefMap, op: &Op, got: &Res, heap: &ManualHeap) -> Vec<(String, String)> {
+    oracle_step_biased(surface, r, op, got, heap, None)
+}
+
+/// `forged`: Some(charge the harness wrote through the hook, live total at that moment) -- the
+/// accounting check then is "charge moved by exactly what the live total moved by"
+fn oracle_step_biased(surface: &str, r: &mut RefMap, op: &Op, got: &Res, heap: &ManualHeap, forged: Option<(u64, u64)>) -> Vec<(String, String)> {
     let mut out = Vec::new();
     let want = ref_expect(r, op);
     match want {
@@ -267,6 +273,7 @@ fn oracle_step(surface: &str, r: &mut RefMap, op: &Op, got: &Res, heap: &ManualH
         }
     }
     let total: u64 = r.live.values().map(|d| 8 * d.len() as u64).sum();
+    let total = match forged { Some((b, t0)) => b.wrapping_add(total).wrapping_sub(t0), None => total };
     if heap.bytes_allocated() as u64 != total {
         out.push((format!("mheap-oracle:{}:accounting:after-{}-{}", surface, op_name(op.k), if is_ok(got.code) { "ok" } else { "error" }),
                   format!("after {:?} -> {:?}: bytes_allocated() = {}, live buffers total {} bytes", op, got, heap.bytes_allocated(), total)));
@@ -424,6 +431,79 @@ pub fn replay_text(ops: &[Op]) -> String {
     }).collect::<Vec<_>>().join("; ")
 }
 
+/// Charge-overflow scenarios on the raw API: a short valid history, then the charge is overwritten
+/// (hook) with a value a few bytes below usize::MAX, then allocations that do not fit (must be
+/// errors that change nothing), probes of every handle, and allocations that still fit (which show
+/// whether the failed ones consumed a free-list entry).
+#[cfg(vbxq_aelys_lang_verif)]
+fn forged_main(seed: u64, hist: u64, dist: &mut Dist) {
+    let huge: Vec<i128> = vec![1i128 << 61];
+    for hidx in 0..hist {
+        let mut rng = Rng::new(seed.wrapping_mul(1_000_003).wrapping_add(hidx).wrapping_add(5 << 40));
+        let mut s = Api { h: ManualHeap::new() };
+        let mut r = RefMap::default();
+        let mut pre: Vec<Op> = Vec::new();
+        let mut findings: Vec<(usize, String, String)> = Vec::new();
+        let n_pre = 2 + rng.below(20) as usize;
+        for _ in 0..n_pre {
+            // valid operations only, frees favoured so that the free list is not empty
+            let live: Vec<u64> = r.live.keys().cloned().collect();
+            let op = if live.len() >= 2 && rng.chance(1, 3) { Op { k: FREE, a: A::I(*rng.pick(&live) as i128), b: A::Null, v: 0, vsrc: String::new(), via_fn: false } }
+                     else { let mut d2 = Dist(BTreeMap::new()); let mut o = gen_op(&mut rng, &r, "api", &huge, &mut d2); if o.k == SIZE || !matches!(ref_expect(&r, &o), Some(_)) { o = Op { k: ALLOC, a: A::I(rng.range_i64(1, 8) as i128), b: A::Null, v: 0, vsrc: String::new(), via_fn: false }; } o };
+            let got = s.exec(&op);
+            for (sig, d) in oracle_step("forged", &mut r, &op, &got, s.heap()) { findings.push((pre.len(), sig, d)); }
+            pre.push(op);
+        }
+        let room = rng.below(64);                                // bytes left before usize::MAX
+        let b = u64::MAX - room;
+        s.h.verif_set_bytes_allocated(b as usize);
+        let t0: u64 = r.live.values().map(|d| 8 * d.len() as u64).sum();
+        let mut post: Vec<Op> = Vec::new();
+        let mut obs: Vec<i128> = Vec::new();
+        let n_post = 3 + rng.below(12) as usize;
+        for i in 0..n_post {
+            let live: Vec<u64> = r.live.keys().cloned().collect();
+            let dead: Vec<u64> = r.dead.iter().cloned().collect();
+            let mk = |k, a: i128, bb: i128, v: u64| Op { k, a: A::I(a), b: A::I(bb), v, vsrc: String::new(), via_fn: false };
+            let used: u64 = r.live.values().map(|d| 8 * d.len() as u64).sum::<u64>().wrapping_sub(t0);
+            let left = room.wrapping_sub(used);                  // what still fits
+            let op = match rng.below(6) {
+                0 | 1 => { dist.hit("forged:alloc-not-fitting"); mk(ALLOC, (left / 8 + 1 + rng.below(3)) as i128, 0, 0) }
+                2 if left >= 8 => { dist.hit("forged:alloc-fitting"); mk(ALLOC, (1 + rng.below(left / 8)) as i128, 0, 0) }
+                3 if !dead.is_empty() => { dist.hit("forged:probe-stale"); mk(LOAD, *rng.pick(&dead) as i128, 0, 0) }
+                4 if !live.is_empty() => { dist.hit("forged:free"); mk(FREE, *rng.pick(&live) as i128, 0, 0) }
+                _ if !live.is_empty() => { let h = *rng.pick(&live); dist.hit("forged:store"); mk(STORE, h as i128, rng.below(r.live[&h].len() as u64) as i128, Value::int(i as i64).raw_bits()) }
+                _ => { dist.hit("forged:alloc-not-fitting"); mk(ALLOC, (left / 8 + 1) as i128, 0, 0) }
+            };
+            let got = s.exec(&op);
+            // the property's expectation for an allocation that cannot be charged is "error"
+            let fits = match (op.k, op.a) { (ALLOC, A::I(n)) => (n as u64).checked_mul(8).map(|x| x <= left).unwrap_or(false), _ => true };
+            if op.k == ALLOC && !fits {
+                if is_ok(got.code) { findings.push((pre.len() + i, "mheap-oracle:forged:alloc:charge-overflow-not-reported".into(), format!("{:?} -> {:?} with {} bytes of charge left", op, got, left))); }
+                // state must be unchanged: run the whole-state part of the oracle with a no-op
+                let probe = Op { k: SIZE, a: A::I(-1), b: A::Null, v: 0, vsrc: String::new(), via_fn: false };
+                for (sig, d) in oracle_step_biased("forged", &mut r, &probe, &Res { code: E_INVALID_HANDLE, val: 0 }, s.heap(), Some((b, t0))) {
+                    findings.push((pre.len() + i, sig.replace("after-size", "after-alloc-error"), format!("after failed {:?}: {}", op, d)));
+                }
+            } else {
+                for (sig, d) in oracle_step_biased("forged", &mut r, &op, &got, s.heap(), Some((b, t0))) { findings.push((pre.len() + i, sig, d)); }
+            }
+            obs.push(got.code as i128); obs.push(got.val); obs.push(s.heap().bytes_allocated() as i128);
+            post.push(op);
+        }
+        println!("QApiForged [{}] {} [{}]\t{}\tforged {} after: {} then: {}",
+                 pre.iter().map(|x| coq_op(x, false)).collect::<Vec<_>>().join("; "), b,
+                 post.iter().map(|x| coq_op(x, false)).collect::<Vec<_>>().join("; "),
+                 obs.iter().map(|x| x.to_string()).collect::<Vec<_>>().join(" "), b, replay_text(&pre), replay_text(&post));
+        let first = findings.iter().map(|f| f.0).min();
+        let mut seen = BTreeSet::new();
+        for (i, sig, d) in findings {
+            if Some(i) != first || !seen.insert(sig.clone()) { continue; }
+            println!("!ORACLE\t{}\t{}\tstep {} of: {} ; set charge {} ; {}", sig, d.replace('\t', " "), i, replay_text(&pre), b, replay_text(&post));
+        }
+    }
+}
+
 #[cfg(vbxq_aelys_lang_verif)]
 fn main() {
     quiet_panics();
@@ -440,6 +520,7 @@ fn main() {
         let huge_vm: Vec<i128> = vec![(max_heap as i128) / 8 + 1, 3_000_000, 1 << 40, (1 << 47) - 1];
         let fixed = replay.as_ref().map(|t| parse_ops(t));
         let n_hist = if fixed.is_some() { 1 } else { hist };
+        if surf == "forged" { forged_main(seed, hist, &mut dist); for (k, v) in &dist.0 { println!("#DIST\t{}\t{}", k, v); } return; }
         for hidx in 0..n_hist {
             let mut rng = Rng::new(seed.wrapping_mul(1_000_003).wrapping_add(hidx).wrapping_add(match surf.as_str() { "api" => 0, "builtin" => 1 << 40, _ => 2 << 40 }));
             // lengths 1..maxlen, biased so that short and long histories both occur
